@@ -24,6 +24,18 @@ static unsigned mk_vec(unsigned count) { unsigned i, total = 0; MK_STR(0) MK_STR
 #define SET_VEC(c) { wasi.argc = (int)(c); wasi.argv = g_vec; }
 #endif
 
+/* wasiInit: "exactly the argument and environment vectors given at initialisation": the environment ends at its NULL entry and nowhere else
+ * (strings of any content, also empty ones) */
+void h_init_vectors(void) {
+    ND(unsigned, count); ND(unsigned, ac); bool ok;
+    ASSUME(count <= NSTR && ac <= NSTR); (void)mk_vec(count);
+    wasi.fds.fds = 0; wasi.fds.length = 0; wasi.fds.capacity = 0;
+    ok = wasiInit((int)ac, g_vec, g_vec);
+    ASSUME(ok);
+    OBL(wasi.envc == (int)count && wasi.envp == g_vec, "init: the environment has as many entries as precede its NULL terminator, whatever the strings contain (an empty string is an entry)");
+    OBL(wasi.argc == (int)ac && wasi.argv == g_vec, "init: argument count and vector are taken as given");
+    CANARY("init vectors returns");
+}
 void h_sizes(void) {
     ND(unsigned, count); ND(U32, cp); ND(U32, sp); ND(U32, k); unsigned total; U32 r; U8 old[GMEM];
     ASSUME(count <= NSTR); total = mk_vec(count); SET_VEC(count); mem_init();
